@@ -85,6 +85,8 @@ type Op struct {
 	// multiple modules, it will be called for each") instead of a registration of its own.  Such a notifier cannot tell
 	// the instances apart: the multiset of exit codes it received is compared.
 	Shared bool `json:"shared,omitempty"`
+	// Reenter (inst, fixed sequential histories): the instance's close notifier looks its own name up in the registry
+	Reenter bool `json:"reenter,omitempty"`
 	// Sparse (inst with pre=badfs, sequential histories): see the instantiation of "badfs"
 	Sparse bool `json:"sparse,omitempty"`
 }
@@ -155,6 +157,7 @@ type world struct {
 	frees               map[int]int
 	dirOpens, dirCloses map[int]int                      // per instance: handles handed out by / closed on its mounted (bad) file system
 	dirLive             map[int]map[int]bool             // per instance: ids of the handles not closed yet
+	reent               map[int][]string                 // per instance: what its close notifier found under its own name
 	pool                []int                            // handles of successfully instantiated modules, in response order
 	builders            map[int]wazero.HostModuleBuilder // per name: the builder object reused by every "hostb" instantiation
 	// one close-notifier registration shared by all `Shared` instantiations
@@ -173,7 +176,7 @@ func newWorld(engine string) *world {
 	}
 	rc = rc.WithCloseOnContextDone(true)
 	w := &world{engine: engine, rt: wazero.NewRuntimeWithConfig(ctx, rc), mods: map[int]api.Module{},
-		ptr: map[*wasm.ModuleInstance]int{}, notes: map[int][]uint32{}, allocs: map[int]int{}, frees: map[int]int{}, dirOpens: map[int]int{}, dirCloses: map[int]int{}, dirLive: map[int]map[int]bool{}}
+		ptr: map[*wasm.ModuleInstance]int{}, notes: map[int][]uint32{}, allocs: map[int]int{}, frees: map[int]int{}, dirOpens: map[int]int{}, dirCloses: map[int]int{}, dirLive: map[int]map[int]bool{}, reent: map[int][]string{}}
 	c, err := w.rt.CompileModule(ctx, bin)
 	if err != nil {
 		hx.Fatal("setup compile: %v", err)
@@ -370,8 +373,23 @@ func (w *world) do(o Op) (res rawRes) {
 	case "inst":
 		h := o.H
 		ictx := experimental.WithCloseNotifier(ctx, experimental.CloseNotifyFunc(func(_ context.Context, code uint32) {
+			look := ""
+			if o.Reenter {
+				// re-entrancy: the notification is delivered when the module IS closed: a look-up of its name from inside
+				// the notifier finds no module (or, later, a new owner) - never the closed one
+				if lm := w.rt.Module(nameStr(o.Name)); lm == nil {
+					look = "none"
+				} else if lm.IsClosed() {
+					look = "the-closed-module"
+				} else {
+					look = "an-open-module"
+				}
+			}
 			w.mu.Lock()
 			w.notes[h] = append(w.notes[h], code)
+			if look != "" {
+				w.reent[h] = append(w.reent[h], look)
+			}
 			w.mu.Unlock()
 		}))
 		if o.Shared {
@@ -897,6 +915,17 @@ func runSeq(engine string, ops []Op, cfg Cfg, o *hx.Oracle) {
 		}
 		if leak := w.dirLeak(h); leak != "" {
 			rep.Violate(hx.Violation{Kind: "impl-violation", Signature: "C10:seq-directory-handle-not-released", What: leak + " after every instance and the runtime were closed", Input: seqCase{engine, concrete}})
+		}
+		w.mu.Lock()
+		re := append([]string(nil), w.reent[h]...)
+		w.mu.Unlock()
+		for _, l := range re {
+			if l == "the-closed-module" {
+				rep.Violate(hx.Violation{Kind: "impl-violation", Signature: "C10:closed-module-still-registered-during-its-close-notification",
+					What:  fmt.Sprintf("handle %d: from inside its own close notification a look-up of the module's name returned the CLOSED module: the name is released only after the resources (a restart from the notifier fails with 'already instantiated'; a panicking notifier leaves the name taken for ever)", h),
+					Input: seqCase{engine, concrete}, Expected: "no module under the name", Actual: l})
+				break
+			}
 		}
 		if allocs > 0 && frees != d.fs {
 			rep.Violate(hx.Violation{Kind: "correspondence", Signature: "C10:seq-resource-release-differs-from-impl-model",
@@ -1533,6 +1562,11 @@ func main() {
 			runSeq(engine, []Op{{Kind: "inst", H: 1, Name: 1, Pre: "none"}, {Kind: "close", H: 1, Code: code}, {Kind: "isclosed", H: 1}, {Kind: "look", Name: 1},
 				{Kind: "inst", H: 2, Name: 1, Pre: "bin"}, {Kind: "close", H: 1, Code: 5}, {Kind: "look", Name: 1}, {Kind: "isclosed", H: 2}}, cfg, orc)
 		}
+	}
+	// re-entrant close notifiers
+	for _, engine := range []string{"interpreter", "compiler"} {
+		runSeq(engine, []Op{{Kind: "inst", H: 1, Name: 1, Pre: "none", Reenter: true}, {Kind: "inst", H: 2, Name: 2, Pre: "bin", Reenter: true}, {Kind: "close", H: 1, Code: 4}, {Kind: "look", Name: 1},
+			{Kind: "inst", H: 3, Name: 1, Pre: "none", Reenter: true}, {Kind: "close", H: 2, Code: 0}, {Kind: "close", H: 3, Code: 1}, {Kind: "look", Name: 1}, {Kind: "look", Name: 2}}, cfg, orc)
 	}
 	// resources behind a gap: instances whose descriptor table is sparse, closed one by one and by the runtime
 	for _, engine := range []string{"interpreter", "compiler"} {
